@@ -124,6 +124,9 @@ def fresh(x):
         return x
     if isinstance(x, int):
         return int(str(x))
+    if isinstance(x, str):
+        # likewise an attribute name / element symbol read from a file is equal to, not identical with, the literal
+        return "".join(list(x)) if len(x) > 1 else x
     if isinstance(x, list):
         return [fresh(v) for v in x]
     if isinstance(x, tuple):
